@@ -113,6 +113,21 @@ Theorem C14_deranged_truncation : forall l buf, Forall hr_ok l -> no_nul l -> bu
 Proof. exact deranged_truncation. Qed.
 Print Assumptions C14_deranged_truncation.
 
+(* the expanded form likewise: its text (C14_deranged_fit: the names joined by commas) reads back as the same hosts *)
+Theorem C14_deranged_roundtrip : forall l, printable l -> targets (join 44 (expand l)) = Ok (expand l).
+Proof. exact deranged_roundtrip. Qed.
+Print Assumptions C14_deranged_roundtrip.
+
+Theorem C14_deranged_lossless : forall l buf, Forall hr_ok l -> no_nul l -> buf <> [] -> printable l ->
+  (length (join 44 (expand l)) < length buf)%nat ->
+  exists b t, deranged_string l buf = Ok (b, Some (length t)) /\ cstring b = Some t /\ targets t = Ok (expand l).
+Proof.
+  intros l buf Hok Hn Hne Hp Hf. destruct (deranged_fit l buf Hok Hn Hne Hf) as (b & E & C).
+  exists b, (join 44 (expand l)). split; [exact E|]. split; [exact C|]. apply deranged_roundtrip. exact Hp.
+Qed.
+Print Assumptions C14_deranged_lossless.
+
+
 Example C14_nonvacuous :
   let l := [mkhr [97] 8 11 1 false; mkhr [98] 0 0 0 true] in
   Forall hr_ok l /\
